@@ -341,11 +341,6 @@ class PPO(RLAlgorithm):
         # Use -log_prob as entropy when squashing output in continuous action spaces
         entropy = -log_prob.mean() if entropy is None else entropy
 
-        if isinstance(self.action_space, spaces.Box) and self.action_space.shape == (
-            1,
-        ):
-            action = action.unsqueeze(1)
-
         # Clip to action space during inference
         action = action.cpu().data.numpy()
         if not self.training and isinstance(self.action_space, spaces.Box):
